@@ -11,6 +11,9 @@ from concurrent.futures import ThreadPoolExecutor
 VERIF = os.path.dirname(os.path.dirname(os.path.abspath(__file__)))
 REPO = os.environ.get("VERIF_REPO", "/repo")
 BUILD = os.path.join(VERIF, "build")
+# binaries of a scratch tree (VERIF_REPO) can go to their own directory so that two trees can be checked at the same time;
+# the object cache is keyed by content and is shared
+BINDIR = "bin" + (("-" + os.environ["VERIF_BIN_TAG"]) if os.environ.get("VERIF_BIN_TAG") else "")
 CXX = os.environ.get("VERIF_CXX", "g++")
 
 SAN = ["-O1", "-g1", "-fsanitize=address,undefined",
@@ -145,7 +148,7 @@ def compile_obj(src, flags):
 
 def build(targets, flavours=("san",), jobs=16):
     t0 = time.time()
-    os.makedirs(os.path.join(BUILD, "bin"), exist_ok=True)
+    os.makedirs(os.path.join(BUILD, BINDIR), exist_ok=True)
     work = {}   # (src, tuple(flags)) -> future
     plan = []
     # a target may be given as "<name>.<flavour>" (e.g. c11_mesh.guard); plain names use the flavours argument
@@ -189,7 +192,7 @@ def build(targets, flavours=("san",), jobs=16):
                 objs.append(obj)
                 if rb:
                     rebuilt += 1
-            binp = os.path.join(BUILD, "bin", t + ("" if fl == "san" else "." + fl))
+            binp = os.path.join(BUILD, BINDIR, t + ("" if fl == "san" else "." + fl))
             stamp = binp + ".objs"
             sig = "\n".join(objs)
             if os.path.exists(binp) and os.path.exists(stamp) and open(stamp).read() == sig:
@@ -202,10 +205,13 @@ def build(targets, flavours=("san",), jobs=16):
             open(stamp, "w").write(sig)
     # garbage-collect objects not referenced by any stamp (keeps disk bounded)
     keep = set()
-    bd = os.path.join(BUILD, "bin")
-    for f in os.listdir(bd):
-        if f.endswith(".objs"):
-            keep.update(open(os.path.join(bd, f)).read().split("\n"))
+    for bdn in os.listdir(BUILD):
+        bd = os.path.join(BUILD, bdn)
+        if not (bdn == "bin" or bdn.startswith("bin-")) or not os.path.isdir(bd):
+            continue
+        for f in os.listdir(bd):
+            if f.endswith(".objs"):
+                keep.update(open(os.path.join(bd, f)).read().split("\n"))
     od = os.path.join(BUILD, "obj")
     if os.path.isdir(od):
         for f in os.listdir(od):
